@@ -624,8 +624,14 @@ def rule_r7(ctx) -> List[R.Inst]:
             insts.append(R.viol(rid, "cell-store", file, st[0].lineno, "each object is stored at lines[its row][its column]",
                                 construct=f"lines[{unparse(row)[:60]}][{unparse(colv)[:40]}] = {unparse(val)[:40]}"))
     rows = [n for n in ast.walk(loop) if isinstance(n, ast.Assign) and unparse(n.targets[0]) == "lines"]
-    if rows and "range(keys)" in unparse(rows[0].value) and "range(den_max)" in unparse(rows[0].value):
+    # the grid built by a comprehension, or by a loop that appends one row per range(den_max) to an empty list
+    build = " ; ".join([unparse(r.value) for r in rows] +
+                       [unparse(l_.iter) + " : " + unparse(x.args[0]) for l_ in ast.walk(loop) if isinstance(l_, ast.For)
+                        for x in ast.walk(l_) if isinstance(x, ast.Call) and call_name(x) == "append" and unparse(x.func.value) == "lines" and x.args])
+    if rows and "range(keys)" in build and "range(den_max)" in build:
         insts.append(R.ok(rid, "grid", file, rows[0].lineno, idiom="den_max rows of `keys` cells"))
+    elif rows and "range(" not in unparse(rows[0].value) and "range(" not in build:
+        insts.append(R.undec(rid, "grid", file, rows[0].lineno, "how the grid of a measure is built was not recognised"))
     else:
         insts.append(R.viol(rid, "grid", file, (rows[0] if rows else loop).lineno, "a measure is a grid of den_max rows by `keys` cells",
                             construct=unparse(rows[0]) if rows else ""))
